@@ -371,6 +371,7 @@ func readXML(data []byte, cut, failAt int) (cur xsel.Cursor, err error) {
 			err = fmt.Errorf("PANIC: %v", r)
 		}
 	}()
+	defer run.Track("ReadXml", string(data))()
 	return xsel.ReadXml(&chunkReader{data: data, cut: cut, failAt: failAt})
 }
 
